@@ -166,10 +166,22 @@ Definition eof_newline_once (l : list ftoken) : list ftoken :=
 Definition is_directive_ty (ty : TokenType) : bool :=
   match ty with TT_CompilerDirective | TT_ConditionalDirective _ => true | _ => false end.
 
+(* "a case difference may occur only inside ... a compiler-directive name": the name is looked for where a name can be, right
+   after the opener, and can only consist of letters, digits and `_` (a word) or `+ - ,` (a switch list) - a declarative
+   over-approximation of the span the rule's state machine finds; everything else of the token is reproduced exactly *)
+Definition is_dir_name_byte (b : byte) : bool := is_alpha b || is_digit b || (b =? 95) || (b =? 43) || (b =? 45) || (b =? 44).
+Definition dir_open_len (c : bytes) : nat := if is_prefix [123; 36] c then 2%nat else if is_prefix [40; 42; 36] c then 3%nat else 0%nat.
+Definition r01_directive (old new : bytes) : bool :=
+  let p := dir_open_len old in
+  let n := count_while is_dir_name_byte (skipn p old) in
+  bytes_eqb (firstn p new) (firstn p old)
+  && bytes_eqb (fold_case (firstn n (skipn p new))) (fold_case (firstn n (skipn p old)))
+  && bytes_eqb (skipn (p + n) new) (skipn (p + n) old).
+
 Definition r01_b (ty : TokenType) (old new : bytes) : bool :=
   bytes_eqb old new
   || (is_keyword ty && bytes_eqb new (lower old))
-  || (is_directive_ty ty && bytes_eqb (fold_case new) (fold_case old))
+  || (is_directive_ty ty && r01_directive old new)
   || ((is_sl_comment ty || is_ml_string ty) && bytes_eqb (strip new) (strip old)).
 
 Definition tok_ok_b (ws content : bytes) : bool :=
